@@ -166,4 +166,185 @@ def sharers (d : Decomp) (g : Nat) : List Nat :=
 
 end Decomp
 
+
+/-! ## Composite mirrors and vectors (LAFEM::TupleMirror / PowerMirror over TupleVector / PowerVector)
+
+`TupleMirror<First, Rest...>` and `PowerMirrorHelper<i>` are both the recursion
+`first.op(buffer, vector.first(), offset); rest.op(buffer, vector.rest(), offset + first.buffer_size(vector.first()))`,
+and a one-component tuple / power behaves like its component.  So a composite mirror is a binary tree:
+a `k`-tuple is `pair c₁ (pair c₂ (… cₖ))`, a power of `n` is the same with `n` copies of one sub-mirror
+(`CMir.power`), and nesting puts a `pair` into a first position.  Leaves are `VectorMirror` index lists
+applied to `DenseVector` (`bs = 1`) or `DenseVectorBlocked<bs>` POD arrays. -/
+
+inductive CMir where
+  | leaf (idx : List Nat)
+  | pair (a b : CMir)
+deriving Repr, Inhabited
+
+inductive CVec (α : Type) where
+  | leaf (bs : Nat) (pod : List α)
+  | pair (a b : CVec α)
+deriving Repr, Inhabited
+
+/-- `PowerMirror<Sub, n>`: `n ≥ 1` copies of the same sub-mirror (`power 0` is not a C++ type; it is `sub`) -/
+def CMir.power : Nat → CMir → CMir
+  | 0, s => s
+  | 1, s => s
+  | n + 2, s => .pair s (CMir.power (n + 1) s)
+
+namespace CVec
+
+/-- number of POD entries -/
+def podSize : CVec α → Nat
+  | leaf _ pod => pod.length
+  | pair a b => a.podSize + b.podSize
+
+/-- all leaves in order, concatenated -/
+def flat : CVec α → List α
+  | leaf _ pod => pod
+  | pair a b => a.flat ++ b.flat
+
+/-- `format(0)`: same shape, all entries zero -/
+def zero : CVec α → CVec α
+  | leaf bs pod => leaf bs (List.replicate pod.length 0)
+  | pair a b => pair a.zero b.zero
+
+/-- rebuild a vector of the shape of `v` from a flat POD list -/
+def unflat : CVec α → List α → CVec α
+  | leaf bs pod, l => leaf bs (l.take pod.length)
+  | pair a b, l => pair (a.unflat l) (b.unflat (l.drop a.podSize))
+
+/-- the leaves as lists (output format of the driver) -/
+def leaves : CVec α → List (List α)
+  | leaf _ pod => [pod]
+  | pair a b => a.leaves ++ b.leaves
+
+end CVec
+
+namespace CMir
+
+/-- `buffer_size(vector)`: `num_indices * block_size` on a leaf, sum over the components otherwise -/
+def bufSize : CMir → CVec α → Nat
+  | leaf idx, .leaf bs _ => idx.length * bs
+  | pair a b, .pair x y => a.bufSize x + b.bufSize y
+  | _, _ => 0
+
+/-- mirror and vector have the same tree shape, every leaf index addresses a block of its leaf -/
+def wf : CMir → CVec α → Bool
+  | leaf idx, .leaf bs pod => idx.all fun i => i * bs + bs ≤ pod.length
+  | pair a b, .pair x y => a.wf x && b.wf y
+  | _, _ => false
+
+/-- the composite mirror as one index list into the flattened vector (`voff` = POD offset of this subtree) -/
+def flatIdx : CMir → CVec α → Nat → List Nat
+  | leaf idx, .leaf bs _, voff => (expand bs idx).map (· + voff)
+  | pair a b, .pair x y, voff => a.flatIdx x voff ++ b.flatIdx y (voff + x.podSize)
+  | _, _, _ => []
+
+end CMir
+
+/-- overwrite `buf[off .. off+seg.length)` by `seg` (the range is inside the buffer for valid calls) -/
+def writeAt (buf : List α) (off : Nat) (seg : List α) : List α :=
+  buf.take off ++ seg ++ buf.drop (off + seg.length)
+
+/-- `TupleMirror::gather(buffer, vector, buffer_offset)` / `PowerMirror::gather`:
+component `j` is gathered at `buffer_offset + Σ_{i<j} buffer_size_i` -/
+def cgather : CMir → CVec α → List α → Nat → List α
+  | .leaf idx, .leaf bs pod, buf, off => writeAt buf off (gather (expand bs idx) pod)
+  | .pair a b, .pair x y, buf, off => cgather b y (cgather a x buf off) (off + a.bufSize x)
+  | _, _, buf, _ => buf
+
+/-- `TupleMirror::scatter_axpy(vector, buffer, alpha, buffer_offset)` / `PowerMirror::scatter_axpy` -/
+def cscatter : CMir → CVec α → List α → α → Nat → CVec α
+  | .leaf idx, .leaf bs pod, buf, alpha, off => .leaf bs (scatterAxpy pod (expand bs idx) (buf.drop off) alpha)
+  | .pair a b, .pair x y, buf, alpha, off =>
+      .pair (cscatter a x buf alpha off) (cscatter b y buf alpha (off + a.bufSize x))
+  | _, v, _, _, _ => v
+
+/-! ### Gate over composite vectors (`Global::Gate<TupleVector<…>, TupleMirror<…>>`) -/
+
+structure CPatch (α : Type) where
+  /-- a vector of the right shape (contents irrelevant) -/
+  tmpl : CVec α
+  nbrs : List (Nat × CMir)
+deriving Inhabited
+
+/-- componentwise map / zipWith on equal shapes -/
+def CVec.map (f : α → α) : CVec α → CVec α
+  | .leaf bs pod => .leaf bs (pod.map f)
+  | .pair a b => .pair (a.map f) (b.map f)
+
+def CVec.zipWith (f : α → α → α) : CVec α → CVec α → CVec α
+  | .leaf bs p, .leaf _ q => .leaf bs (List.zipWith f p q)
+  | .pair a b, .pair c d => .pair (CVec.zipWith f a c) (CVec.zipWith f b d)
+  | v, _ => v
+
+/-- `Gate::compile` -/
+def cfreqs (p : CPatch α) : CVec α :=
+  let ones := p.tmpl.map fun _ => 1
+  let cnt := p.nbrs.foldl (fun f nb =>
+    cscatter nb.2 f (List.replicate (nb.2.bufSize f) 1) 1 0) ones
+  cnt.map fun x => 1 / x
+
+def cfrom1to0 (p : CPatch α) (v : CVec α) : CVec α :=
+  if p.nbrs.isEmpty then v else CVec.zipWith (fun a b => a * b) v (cfreqs p)
+
+def csendBuf (ps : List (CPatch α)) (vs : List (CVec α)) (s r : Nat) : Option (List α) :=
+  ((ps.getD s default).nbrs.find? fun nb => nb.1 == r).map fun nb =>
+    let v := vs.getD s default
+    cgather nb.2 v (List.replicate (nb.2.bufSize v) 0) 0
+
+def csync0Patch (ps : List (CPatch α)) (vs : List (CVec α)) (r : Nat) (ord : List Nat) : CVec α :=
+  ord.foldl (fun tgt k =>
+      match (ps.getD r default).nbrs[k]? with
+      | some nb => cscatter nb.2 tgt ((csendBuf ps vs nb.1 r).getD []) 1 0
+      | none => tgt)
+    (vs.getD r default)
+
+def csync0 (ps : List (CPatch α)) (ords : List (List Nat)) (vs : List (CVec α)) : List (CVec α) :=
+  (List.range ps.length).map fun r => csync0Patch ps vs r (ords.getD r [])
+
+def csync1 (ps : List (CPatch α)) (ords : List (List Nat)) (vs : List (CVec α)) : List (CVec α) :=
+  csync0 ps ords ((List.range ps.length).map fun r => cfrom1to0 (ps.getD r default) (vs.getD r default))
+
+/-- matching sends/receives with equal buffer sizes -/
+def cexchangeOk (ps : List (CPatch α)) : Bool :=
+  (List.range ps.length).all fun r =>
+    let p := ps.getD r default
+    p.nbrs.all fun nb =>
+      let q := ps.getD nb.1 default
+      match q.nbrs.find? fun nb' => nb'.1 == r with
+      | some nb' => nb'.2.bufSize q.tmpl == nb.2.bufSize p.tmpl && nb.1 < ps.length
+      | none => false
+
+def cgdotLocal (p : CPatch α) (x y : CVec α) : α :=
+  if p.nbrs.isEmpty then dotLocal x.flat y.flat else tripleDot (cfreqs p).flat x.flat y.flat
+
+def cgdot (ps : List (CPatch α)) (xs ys : List (CVec α)) : α :=
+  ((List.range ps.length).map fun r =>
+    cgdotLocal (ps.getD r default) (xs.getD r default) (ys.getD r default)).foldl (· + ·) 0
+
+/-! ### Muxer (`Global::Muxer::join` / `split` between a child layer and its parent process)
+
+Child `c` owns `srcs[c]` and its parent mirror `pm[c]`; the parent owns the child mirrors `cm[c]`.
+`B` is `_buffer_size` (compile: the largest child-mirror buffer size); every child sends a buffer of
+exactly `B` entries, `MPI_Gather` concatenates them in child order. -/
+
+def muxBufSize (cm : List CMir) (tmpl : CVec α) : Nat :=
+  cm.foldl (fun b m => max b (m.bufSize tmpl)) 0
+
+/-- `join`: children gather with their parent mirror, the parent scatters buffer `c` from offset `c*B` -/
+def muxJoin (B : Nat) (pm cm : List CMir) (srcs : List (CVec α)) (trg : CVec α) : CVec α :=
+  let childBufs := (List.range cm.length).flatMap fun c =>
+    cgather (pm.getD c default) (srcs.getD c default) (List.replicate B 0) 0
+  (List.range cm.length).foldl (fun t c => cscatter (cm.getD c default) t childBufs 1 (c * B)) trg.zero
+
+/-- `split`: the parent gathers buffer `c` at offset `c*B`, `MPI_Scatter` hands slice `c` to child `c`,
+which scatters it with its parent mirror into a zero vector -/
+def muxSplit (B : Nat) (pm cm : List CMir) (src : CVec α) (trgs : List (CVec α)) : List (CVec α) :=
+  let childBufs := (List.range cm.length).foldl
+    (fun buf c => cgather (cm.getD c default) src buf (c * B)) (List.replicate (B * cm.length) 0)
+  (List.range cm.length).map fun c =>
+    cscatter (pm.getD c default) (trgs.getD c default).zero ((childBufs.drop (c * B)).take B) 1 0
+
 end FeatModel.Dist
